@@ -283,28 +283,38 @@ func genCtxFields(r *Repo) (string, error) {
 	}
 	cwSet := ctxFieldSet{}
 	var cwCond []string
+	cwName := copyVarName(r, cw.Body) // the variable holding the copy, whatever it is called
 	walkCW := func() {
 		for _, st := range cw.Body.List {
 			switch x := st.(type) {
 			case *ast.AssignStmt:
 				for _, l := range x.Lhs {
-					if f, ok := ctxField(l, "cp"); ok {
+					if f, ok := ctxField(l, cwName); ok {
 						cwSet[f] = true
 					}
 				}
 			case *ast.IfStmt:
 				// if !c.tsr { copyWithResize(cp.params, c.params) } else { copyWithResize(cp.tsrParams, c.tsrParams) }
-				var arms []string
-				collect := func(b *ast.BlockStmt) {
-					for _, s := range b.List {
-						arms = append(arms, strings.Join(strings.Fields(r.Text(s)), " "))
+				// recorded by cases on c.tsr (not by the wording of the condition), with the copy variable written "cp"
+				collect := func(b *ast.BlockStmt) string {
+					var arms []string
+					if b != nil {
+						for _, s := range b.List {
+							arms = append(arms, renameIdent(strings.Join(strings.Fields(r.Text(s)), " "), cwName, "cp"))
+						}
 					}
+					return strings.Join(arms, "; ")
 				}
-				collect(x.Body)
-				if eb, ok := x.Else.(*ast.BlockStmt); ok {
-					collect(eb)
+				eb, _ := x.Else.(*ast.BlockStmt)
+				if thenIsTsr, ok := tsrCond(r, x.Cond); ok && (x.Else == nil || eb != nil) {
+					tArm, fArm := collect(x.Body), collect(eb)
+					if !thenIsTsr {
+						tArm, fArm = fArm, tArm
+					}
+					cwCond = append(cwCond, "tsr=false: "+fArm, "tsr=true: "+tArm)
+				} else {
+					cwCond = append(cwCond, "unknown: "+strings.Join(strings.Fields(r.Text(x)), " "))
 				}
-				cwCond = append(cwCond, strings.Join(strings.Fields(r.Text(x.Cond)), " ")+" ? "+strings.Join(arms, " : "))
 			}
 		}
 	}
@@ -317,9 +327,11 @@ func genCtxFields(r *Repo) (string, error) {
 		return "", fmt.Errorf("cTx.Clone not found")
 	}
 	clSet := ctxFieldSet{}
+	clName := copyVarName(r, cl.Body)
 	freshLiteral := false
 	var litInit [][2]string
 	var writerReads, bufForms []string
+	bufMake, bufCopy, bufStore := map[string]string{}, map[string]string{}, map[string]string{} // local -> field made from / copied from; field -> local stored
 	ast.Inspect(cl.Body, func(n ast.Node) bool {
 		switch x := n.(type) {
 		case *ast.CompositeLit:
@@ -336,14 +348,27 @@ func genCtxFields(r *Repo) (string, error) {
 			}
 		case *ast.AssignStmt:
 			for i, l := range x.Lhs {
-				if f, ok := ctxField(l, "cp"); ok {
+				if f, ok := ctxField(l, clName); ok {
 					clSet[f] = true
 					if (f == "params" || f == "tsrParams") && i < len(x.Rhs) {
+						// cp.f = &L
+						if u, ok := x.Rhs[i].(*ast.UnaryExpr); ok && u.Op.String() == "&" {
+							if id, ok := u.X.(*ast.Ident); ok {
+								bufStore[f] = id.Name
+								continue
+							}
+						}
 						bufForms = append(bufForms, f+" = "+r.Text(x.Rhs[i]))
 					}
 				}
-				if id, ok := l.(*ast.Ident); ok && (id.Name == "params" || id.Name == "tsrParams") && i < len(x.Rhs) {
-					bufForms = append(bufForms, id.Name+" := "+strings.Join(strings.Fields(r.Text(x.Rhs[i])), " "))
+				if id, ok := l.(*ast.Ident); ok && x.Tok.String() == ":=" && i < len(x.Rhs) {
+					// L := make(Params, len(*c.f))
+					txt := strings.Join(strings.Fields(r.Text(x.Rhs[i])), "")
+					for _, f := range []string{"params", "tsrParams"} {
+						if txt == "make(Params,len(*c."+f+"))" {
+							bufMake[id.Name] = f
+						}
+					}
 				}
 			}
 		case *ast.CallExpr:
@@ -354,14 +379,64 @@ func genCtxFields(r *Repo) (string, error) {
 				}
 			}
 			if fn == "copy" && len(x.Args) == 2 {
-				bufForms = append(bufForms, "copy("+r.Text(x.Args[0])+", "+r.Text(x.Args[1])+")")
+				// copy(L, *c.f)
+				src := strings.Join(strings.Fields(r.Text(x.Args[1])), "")
+				if id, ok := x.Args[0].(*ast.Ident); ok && strings.HasPrefix(src, "*c.") {
+					bufCopy[id.Name] = strings.TrimPrefix(src, "*c.")
+				} else {
+					bufForms = append(bufForms, "copy("+r.Text(x.Args[0])+", "+r.Text(x.Args[1])+")")
+				}
 			}
 		}
 		return true
 	})
 	sort.Slice(litInit, func(i, j int) bool { return litInit[i][0] < litInit[j][0] })
 	sort.Strings(writerReads)
-	sort.Strings(bufForms) // the order of the two buffers (the arms of an if/else) is irrelevant
+	// per buffer of the copy: is it a fresh slice (make of the source's length), filled by copy from the same source?
+	// (the names of the locals do not matter)
+	for _, f := range []string{"params", "tsrParams"} {
+		if l, ok := bufStore[f]; ok {
+			if bufMake[l] != "" && bufMake[l] == bufCopy[l] {
+				bufForms = append(bufForms, f+" <- make+copy of c."+bufMake[l])
+			} else {
+				bufForms = append(bufForms, f+" <- &"+l+" (made from c."+bufMake[l]+", copied from c."+bufCopy[l]+")")
+			}
+		}
+	}
+	sort.Strings(bufForms)
+	// which buffer is filled for which value of c.tsr
+	var cloneCond []string
+	for _, st := range cl.Body.List {
+		is, ok := st.(*ast.IfStmt)
+		if !ok {
+			continue
+		}
+		thenIsTsr, ok := tsrCond(r, is.Cond)
+		if !ok {
+			continue
+		}
+		fieldsOf := func(b *ast.BlockStmt) string {
+			var fs []string
+			if b != nil {
+				for _, s2 := range b.List {
+					if as, ok := s2.(*ast.AssignStmt); ok {
+						for _, l := range as.Lhs {
+							if f, ok := ctxField(l, clName); ok {
+								fs = append(fs, f)
+							}
+						}
+					}
+				}
+			}
+			return strings.Join(fs, ",")
+		}
+		eb, _ := is.Else.(*ast.BlockStmt)
+		tArm, fArm := fieldsOf(is.Body), fieldsOf(eb)
+		if !thenIsTsr {
+			tArm, fArm = fArm, tArm
+		}
+		cloneCond = append(cloneCond, "tsr=false: "+fArm, "tsr=true: "+tArm)
+	}
 	if freshLiteral {
 		for _, f := range allCtxFields {
 			clSet[f] = true
@@ -371,6 +446,7 @@ func genCtxFields(r *Repo) (string, error) {
 	fmt.Fprintf(&sb, "def cloneLiteral : List (String × String) := %s\n", ctxLeanPairs(litInit))
 	fmt.Fprintf(&sb, "/-- the calls through which Clone reads the response state (must go through the current writer c.w) -/\ndef cloneWriterReads : List String := %s\n", leanStrList(writerReads))
 	fmt.Fprintf(&sb, "/-- how Clone fills the parameter buffers of the copy (must be make + copy) -/\ndef cloneBufferForms : List String := %s\n", leanStrList(bufForms))
+	fmt.Fprintf(&sb, "/-- which buffer Clone fills for which value of c.tsr -/\ndef cloneCond : List String := %s\n", leanStrList(cloneCond))
 
 	// ---- getters: fields of c read by each method of the Context interface implemented on cTx
 	helperReads := map[string]ctxFieldSet{}
@@ -446,4 +522,90 @@ func ctxReadsFiltered(s ctxFieldSet, fields map[string]bool) []string {
 		}
 	}
 	return s.list()
+}
+
+// copyVarName: the local variable of Clone / CloneWith that holds the copy: the first variable defined from a cTx
+// composite literal (or its address) or from a type assertion to *cTx. "cp" if none is found.
+func copyVarName(r *Repo, body *ast.BlockStmt) string {
+	name := ""
+	ast.Inspect(body, func(n ast.Node) bool {
+		as, ok := n.(*ast.AssignStmt)
+		if !ok || name != "" || as.Tok.String() != ":=" || len(as.Lhs) != 1 || len(as.Rhs) != 1 {
+			return true
+		}
+		id, ok := as.Lhs[0].(*ast.Ident)
+		if !ok {
+			return true
+		}
+		rhs := as.Rhs[0]
+		if u, ok := rhs.(*ast.UnaryExpr); ok && u.Op.String() == "&" {
+			rhs = u.X
+		}
+		switch x := rhs.(type) {
+		case *ast.CompositeLit:
+			if r.Text(x.Type) == "cTx" {
+				name = id.Name
+			}
+		case *ast.TypeAssertExpr:
+			if x.Type != nil && r.Text(x.Type) == "*cTx" {
+				name = id.Name
+			}
+		}
+		return true
+	})
+	if name == "" {
+		return "cp"
+	}
+	return name
+}
+
+// renameIdent replaces the identifier `from` (whole words only) by `to` in a piece of source text.
+func renameIdent(text, from, to string) string {
+	if from == to || from == "" {
+		return text
+	}
+	var sb strings.Builder
+	isId := func(c byte) bool {
+		return c == '_' || c >= '0' && c <= '9' || c >= 'a' && c <= 'z' || c >= 'A' && c <= 'Z'
+	}
+	for i := 0; i < len(text); {
+		if strings.HasPrefix(text[i:], from) && (i == 0 || !isId(text[i-1]) && text[i-1] != '.') && (i+len(from) == len(text) || !isId(text[i+len(from)])) {
+			sb.WriteString(to)
+			i += len(from)
+			continue
+		}
+		sb.WriteByte(text[i])
+		i++
+	}
+	return sb.String()
+}
+
+// tsrCond reads a condition that tests c.tsr: (true, true) when the then-branch runs for c.tsr == true, (false, true)
+// when it runs for c.tsr == false, (_, false) for anything else.
+func tsrCond(r *Repo, e ast.Expr) (bool, bool) {
+	switch x := e.(type) {
+	case *ast.ParenExpr:
+		return tsrCond(r, x.X)
+	case *ast.UnaryExpr:
+		if x.Op.String() == "!" {
+			v, ok := tsrCond(r, x.X)
+			return !v, ok
+		}
+	case *ast.SelectorExpr:
+		if r.Text(x) == "c.tsr" {
+			return true, true
+		}
+	case *ast.BinaryExpr:
+		op := x.Op.String()
+		if op == "==" || op == "!=" {
+			l, rr := r.Text(x.X), r.Text(x.Y)
+			if rr == "c.tsr" {
+				l, rr = rr, l
+			}
+			if l == "c.tsr" && (rr == "true" || rr == "false") {
+				return (rr == "true") == (op == "=="), true
+			}
+		}
+	}
+	return false, false
 }
